@@ -27,8 +27,10 @@ PURE = [f["name"] for f in TABLE if f["name"] not in IMPURE]
 SCHEMA = {
     "n": "num", "i": "int", "s": "str", "u": "str", "b": "bool", "z": "null",
     "arr": "arr:num", "strs": "arr:str", "objs": "arr:obj", "obj": "obj", "nest": "obj", "nas": "nas", "t": "epoch",
-    "bools": "arr:bool", "lists": "arr:arr",
+    "bools": "arr:bool", "lists": "arr:arr", "tw": "obj",
 }
+# unequal objects that feed identical byte streams to a hasher that writes no lengths (see C10): equality must tell them apart
+TWINS = [{"a": {"b": 1}}, {"a": {}, "b": 1}, {"a": {"b": 1, "c": 2}}, {"a": {"b": 1}, "c": 2}]
 ELEM = {"arr:num": "num", "arr:str": "str", "arr:obj": "eobj", "arr:bool": "bool", "arr:any": "any", "arr:arr": "arr:num"}
 WORDS = ["a", "b", "ab", "abc", "x", "hello", "a,b", "k1", "", "Zed", "10", "a b", "é", "日本", "x-y_z", "aé", "bb"]
 NONASCII = ["é", "日本語", "aéb", "ñandú", "ü", "Ωmega", "añ", "éé"]
@@ -64,6 +66,7 @@ def gen_record(rng):
     maybe("t", lambda: rng.choice((0, 86400, 1700000000, 951782400, 1234567890)))
     maybe("bools", lambda: [rng.random() < 0.6 for _ in range(rng.choice((0, 1, 2, 3)))], 0.7)
     maybe("lists", lambda: [[rng.choice((1, 2, 3)) for _ in range(rng.choice((0, 1, 2)))] for _ in range(rng.choice((0, 1, 2, 3)))], 0.7)
+    maybe("tw", lambda: rng.choice(TWINS), 0.3)
     return r
 
 
